@@ -87,7 +87,9 @@ pub fn worker(id: &str) -> i32 {
         "C10" => c10::worker(&args),
         "C12" => c12::worker(&args),
         "C13" => c13::worker(&args),
+        "C04" => c04::worker(&args),
         "C06" => c06::worker(&args),
+        "C17" => c17::worker(&args),
         "C19" => c19::worker(&args),
         _ => {
             println!("MACHINERY-ERROR no worker for {}", id);
